@@ -131,7 +131,9 @@ CHECKS = {
        "the run neither exhausts fuel nor fails internally (balanced's assert, index errors, the bounded skip loop are proved "
        "unreachable) and performs at most (n+1)(n+ceil(log2 n)+2)+1 tests (potential-function proofs). C09_collapse_line proves the "
        "bound end to end for minimize-collapse-brace on every file loaded in line mode (the atoms stay lines, so the re-split never "
-       "adds atoms). replace-properties-by-globals has a CONCRETE model of its pass (ReplaceProps.v: both regular expressions as byte "
+       "adds atoms); C09_collapse_char does the same for char mode (C09_collapse_never_longer), and "
+       "C09_collapse_symbol_custom_post_refuted proves the side condition false for user-supplied symbol delimiters. "
+       "replace-properties-by-globals has a CONCRETE model of its pass (ReplaceProps.v: both regular expressions as byte "
        "scanners, the words dictionary, chunk grouping, substitution): C09_replace_properties / C09_replace_properties_square prove no fuel "
        "exhaustion, no internal error and at most 1 + floor(B/2)*(log2 c0 + 2 + B) <= (B+2)^2 tests for every verdict function, with no "
        "interface assumption (the older C09_replace_properties_partial over an abstract pass is kept). "
@@ -139,7 +141,8 @@ CHECKS = {
        "the implementation is a known finding. Tie: trace correspondence incl. worst-case search by DFS, adversarial long inputs, the "
        "concrete replace-properties model on all five splitters, and the scanners against CPython's re.",
   note=TB + "Partial: replace-arguments-by-globals has no Coq model of its pass (outer loop only; it violates the property: known finding); "
-       "collapse-brace end to end is proved for the line splitter only (other splitters: side condition post_ok, explored).",
+       "collapse-brace end to end is proved for the line and char splitters (symbol / JS-string / attribute: side condition post_ok, "
+       "explored; refuted for custom symbol delimiters).",
   tech="Coq proof (potential functions) for 4 chunk strategies and replace-properties + capped exploration for replace-arguments",
   ref="4/C09"),
  "C13": dict(
